@@ -324,7 +324,9 @@ def mkParent (kind src : String) : Option (Out Parent) :=
     let spec := (src.drop 4).toString
     match kind with
     | "s1" => (parseAll pSign1 spec).map fun m => .ok (.sign1 m)
-    | "sm" => (parseAll pSignMsg spec).map fun m => .ok (.sign m.1)
+    | "sm" =>
+      -- a nil `*Signature` slot (`csn`) is, for a parent, a slot without a signature
+      (parseAll pSignMsg (spec.replace "csn" "cs(H(-;{};-;{});-)")).map fun m => .ok (.sign m.1)
     | "sig" => (parseAll pSigV spec).map fun s => .ok (.signature s)
     | "csig" => (parseAll pSigV spec).map fun s => .ok (.countersignature s)
     | _ => none
@@ -596,6 +598,8 @@ def keyKindOf : String → Option KeyKind
   | "ed25519" => some .ed25519 | "foreign" => some .foreign
   -- an ed25519.PublicKey value of another length than 32 octets is not an Ed25519 key
   | "ed31" => some .foreign | "ed33" => some .foreign | "ed0" => some .foreign
+  | "edp32" => some .foreign | "edp48" => some .foreign | "edp63" => some .foreign | "edp65" => some .foreign
+  | "edp96" => some .foreign | "edw31" => some .foreign | "edw33" => some .foreign
   | _ => none
 
 def opNew (a : List String) : M String :=
@@ -614,6 +618,7 @@ def opNew (a : List String) : M String :=
 
 inductive Dst
   | s1 (m : Sign1Msg) | sm (m : SignMsg) (nilSigs : Bool) | sig (s : SigV) | ph (m : Option GoMap) | uh (m : Option GoMap)
+  | hdrs (h : Hdrs)
 
 def Dst.dump : Dst → String
   | .s1 m => m.dump
@@ -621,6 +626,23 @@ def Dst.dump : Dst → String
   | .sig s => s.dump
   | .ph m => (match m with | some x => dumpMap x | none => "{}")
   | .uh m => (match m with | some x => dumpMap x | none => "{}")
+  | .hdrs h => h.dump
+
+def startsWithTag : Bytes → Bool
+  | b :: _ => b.toNat / 32 = 6
+  | [] => false
+
+/-- `Headers.UnmarshalFromRaw` with `RawProtected = P`, `RawUnprotected = U` set by the caller:
+    protected bucket, then unprotected bucket, then the IV / Partial IV rule across the two;
+    `Protected` and `Unprotected` change only when all three pass.  (A tag in front of a bucket is
+    looked through or not by the CBOR library depending on its number: not modelled.) -/
+def Hdrs.unmarshalFromRaw (P U : Bytes) : Out Hdrs :=
+  if startsWithTag P || startsWithTag U then .unmodelled else do
+  let pm ← Protected.unmarshal P
+  let um ← Unprotected.unmarshal U
+  if !ensureIV pm um then .err .other
+  else .ok { rawP := if P.isEmpty then none else some P, p := pm,
+             rawU := if U.isEmpty then none else some U, u := um }
 
 /-- decode `data` into destination `d`: a failed decode leaves `d` exactly as it was -/
 def Dst.decode (kind : String) (d : Dst) (data : Bytes) : M (Dst × String) :=
@@ -651,8 +673,27 @@ def histLoop (kind : String) : Dst → List Bytes → List String → M String
     | some (d', res) => histLoop kind d' r ((res ++ ":" ++ d'.dump) :: outs)
     | none => none
 
+def histLoopH : Hdrs → List (Bytes × Bytes) → List String → M String
+  | _, [], outs => some (joinWith " " outs.reverse)
+  | h, (p, u) :: r, outs =>
+    match Hdrs.unmarshalFromRaw p u with
+    | .ok h' => histLoopH h' r (("ok:" ++ h'.dump) :: outs)
+    | .err _ => histLoopH h r (("err:" ++ h.dump) :: outs)
+    | .panic => histLoopH h r (("panic:" ++ h.dump) :: outs)
+    | .unmodelled => none
+
 def opHist (a : List String) : M String :=
   match a with
+  | "hdrs" :: steps :: _ =>
+    let pair (s : String) : Option (Bytes × Bytes) :=
+      match splitOnChar '~' s with
+      | [p, u] => (match bytesOfHex p, bytesOfHex u with
+                   | some a, some b => some (a, b)
+                   | _, _ => none)
+      | _ => none
+    (match mapM' pair (splitOnChar ',' steps) with
+     | some ps => histLoopH {} ps []
+     | none => some "bad-op")
   | kind :: steps :: _ =>
     (match mapM' (fun s => (unhexArg s).bind id) (splitOnChar ',' steps) with
      | some bs => histLoop kind (Dst.init kind) bs []
